@@ -90,19 +90,32 @@ class ExpandingSuite(Suite):
         D = self.dist
         universe = ()
 
+        hashers = {}
+
+        def hasher(obj, like=None):
+            # the first sub-filter's bound hashes(), captured when the structure is created or loaded (a
+            # loaded structure shares its source's: same strategy, same geometry): the request tokens
+            # must not depend on the queue still being well-formed later on
+            if id(obj) not in hashers:
+                if like is not None and id(like) in hashers:
+                    hashers[id(obj)] = (obj, hashers[id(like)][1])
+                else:
+                    hashers[id(obj)] = (obj, obj._blooms[0].hashes)
+            return hashers[id(obj)][1]
+
         def tok(h, key):
             kind, obj, sname, q = objs[h]
             _, _, ext = strategy(sname)
             t = key_token(key)
             if ext:
-                t += " hs=" + nats(obj._blooms[0].hashes(key))
+                t += " hs=" + nats(hasher(obj)(key))
             return t
 
         def strat_args(sname, obj):
             _, token, ext = strategy(sname)
             a = f"strat={token}"
             if ext:
-                a += " probe=" + nats(obj._blooms[0].hashes("test"))
+                a += " probe=" + nats(hasher(obj)("test"))
             return a
 
         for op in seq:
@@ -119,6 +132,7 @@ class ExpandingSuite(Suite):
                     line = f"rb.new {h} est={est} fpr={dbl_bits(fpr)} q={q} "
                 if res[0] == "ok":
                     objs[h] = (kind, res[1], sname, q)
+                    hasher(res[1])
                     D[f"{kind}:est={est}"] += 1
                     out.append((line + strat_args(sname, res[1]), self.obs(res[1], "ok")))
                 else:
@@ -146,6 +160,7 @@ class ExpandingSuite(Suite):
                     line = f"rb.load {r} {chan} {src} q={q} "
                 if res[0] == "ok":
                     objs[r] = (kind, res[1], sname, q)
+                    hasher(res[1], like=obj)
                     out.append((line + strat_args(sname, res[1]), self.obs(res[1], "ok")))
                 else:
                     out.append((line + "strat=fnv", {"ret": res[1]}))
